@@ -121,6 +121,10 @@ def run_case(case, ctx):
         c = ctx.call(drange, t0, t1, '%dd' % n)
         ok = a[0] == b[0] == c[0] == 'ok' and list(a[1]) == list(b[1]) == list(c[1])
         ctx.check('int_timedelta_nd_agree', ok, lambda: 'n=%d: int %s.. / timedelta %s.. / string %s..' % (n, _h(a), _h(b), _h(c)))
+    if kind != 'b' and case.get('via_calendar'):
+        from pyg_base import Calendar
+        stc, rc = ctx.call(Calendar().drange, t0, t1, bump)
+        ctx.check('calendar_drange_non_b', stc == 'ok' and list(rc) == exp, lambda: 'Calendar().drange(%s, %s, %r) = %s, drange gives %s' % (t0, t1, bump, rc[:4] if stc == 'ok' else rc, exp[:4]))
     if not fwd or case.get('big') or kind == 'compound':
         ctx.mark_nontrivial(case)
     ctx.cls('kind:' + kind)
@@ -198,7 +202,7 @@ def gen_case(rng):
         t1 = t0 - (t1 - t0)
         if kind in ('single', 'compound') and not any(u in str(bump) for u in 'hns'):
             t1 = datetime.datetime(t1.year, t1.month, min(t1.day, 28))
-    return {'kind': kind, 't0': t0.isoformat(), 't1': t1.isoformat(), 'bump': bump, 'big': big}
+    return {'kind': kind, 't0': t0.isoformat(), 't1': t1.isoformat(), 'bump': bump, 'big': big, 'via_calendar': rng.random() < 0.15}
 
 
 def plan(tier, seed, n):
